@@ -26,7 +26,14 @@ DoIncAge == /\ n < DEPTH /\ Len_(st) > 0
             /\ st' = IncAge_(st)
             /\ gage' = [p \in 1..Len(gage) |-> IF (p - 1) \in Range(st.iv.pid) THEN gage[p] + 1 ELSE gage[p]]
             /\ UNCHANGED gone /\ Rec([op |-> "incage"])
+DoCopyAge == /\ n < DEPTH /\ Len_(st) > 0
+             /\ st' = CopyAge_(st) /\ UNCHANGED <<gage, gone>> /\ Rec([op |-> "copyage"])
+DoBump(i) == /\ n < DEPTH /\ i \in 1..Len_(st)
+             /\ st' = Bump_(st, i)
+             /\ gage' = [gage EXCEPT ![st.iv.pid[i] + 1] = @ + 1]
+             /\ UNCHANGED gone /\ Rec([op |-> "bump", i |-> i - 1])
 Next == \/ \E k \in 1..2, m \in {"default", "scalar", "array"} : DoAppend(k, m)
+        \/ DoCopyAge \/ (\E i \in 1..MAXP : DoBump(i))
         \/ \E i \in 1..MAXP : DoKill(i)
         \/ DoCompactify \/ DoIncAge
 Spec == Init /\ [][Next]_vars
@@ -37,6 +44,10 @@ InvPidGeIndex     == PidGeIndex(st)
 InvBelowNpid      == PidsBelowNpid(st)
 InvTagFollows     == TagFollows(st)
 InvAgeFollows     == \A i \in 1..Len_(st) : st.iv.age[i] = gage[st.iv.pid[i] + 1]      \* instance values follow the particle
+\* a variable assigned from another one is a snapshot: in-place changes of the source never show in it
+MarkIsSnapshot    == [][\A i \in 1..Len_(st) : (\E j \in 1..Len_(st') : st'.iv.pid[j] = st.iv.pid[i]) =>
+                          LET j == CHOOSE j \in 1..Len_(st') : st'.iv.pid[j] = st.iv.pid[i] IN
+                          st'.iv.mark[j] = st.iv.mark[i] \/ st'.iv.mark[j] = st.iv.age[i]]_vars
 InvGoneStayGone   == \A i \in 1..Len_(st) : st.iv.pid[i] \notin gone
 \* action properties
 NeverReused  == [][/\ st'.npid >= st.npid
